@@ -10,7 +10,9 @@ Output line per (case, codec): {cid, codec, env, top, obs: [{k, n, st, cls, site
 import json
 import os
 import random
+import resource
 import sys
+import tracemalloc
 
 HERE = os.path.dirname(os.path.abspath(__file__))
 sys.path.insert(0, HERE)
@@ -190,6 +192,8 @@ def run_batch(batch, codecs, scripts, smalls, nrandom, rng, out):
 
                 def call():
                     return budget.run(lambda: spec.decode(name, data), cap)
+                tracemalloc.reset_peak()
+                mem0 = tracemalloc.get_traced_memory()[0]
                 try:
                     g = dc.guarded(call)
                     rec['st'] = g['st']
@@ -205,7 +209,8 @@ def run_batch(batch, codecs, scripts, smalls, nrandom, rng, out):
                     rec['st'] = 'budget'
                     rec['site'] = budget.site
                 rec['ev'] = budget.n
-                if rec['st'] in ('budget', 'timeout') or (rec['ev'] > 5000 and len(obs) < 4000):
+                rec['mem'] = min(tracemalloc.get_traced_memory()[1] - mem0, 2000000000)
+                if rec['st'] in ('budget', 'timeout') or ((rec['ev'] > 5000 or rec['mem'] > 500000) and len(obs) < 4000):
                     rec['hex'] = data[:64].hex()
                 obs.append(rec)
                 # state-corruption sentinel: the same valid input must still decode to the same value
@@ -217,12 +222,15 @@ def run_batch(batch, codecs, scripts, smalls, nrandom, rng, out):
                     sentinel_bad = data[:64].hex()
             # compress: keep every non-trivial record, summarise the rest
             keep = [r for r in obs if r['st'] in ('budget', 'timeout') or 'hex' in r]
-            evmax = {}
+            evmax, memmax = {}, {}
             for r in obs:
                 key = r['n']
                 if key not in evmax or r['ev'] > evmax[key]['ev']:
                     evmax[key] = r
+                if key not in memmax or r['mem'] > memmax[key]['mem']:
+                    memmax[key] = r
             keep += [r for r in evmax.values() if r not in keep]
+            keep += [r for r in memmax.values() if r not in keep]
             out.write(json.dumps({'cid': '%s-%s' % (c['cid'], codec), 'codec': codec, 'depth': depth,
                                   'asn1': render.render_module('M', env), 'inputs': len(obs),
                                   'outcomes': {k: sum(1 for r in obs if r['st'] == k) for k in ('ok', 'exc', 'budget', 'timeout', 'bad')},
@@ -259,6 +267,12 @@ def main():
             batches.append(g[i:i + a.batch])
     sys.setrecursionlimit(3000)
     dc.CALL_TIMEOUT = 20
+    # backstop only: an allocation beyond 6 GiB fails with MemoryError instead of taking the machine down
+    try:
+        resource.setrlimit(resource.RLIMIT_AS, (6 << 30, 6 << 30))
+    except (ValueError, OSError):
+        pass
+    tracemalloc.start()
     with open(a.out, 'w') as out:
         for bi, b in enumerate(batches):
             if bi % n != k:
